@@ -98,12 +98,11 @@ func child(seed int64, tier string, from, to, only, conc int, outPath, progPath,
 		wg.Add(1)
 		go func() {
 			defer wg.Done()
-			sl.acquire() // start order = index order, at most conc active
-			sl.release()
-			pmu.Lock()
-			fmt.Fprintf(pf, "START %d\n", i)
-			pmu.Unlock()
-			rec := runScenario(sc, seed, sl, watchdog)
+			rec := runScenario(sc, seed, sl, watchdog, func() {
+				pmu.Lock()
+				fmt.Fprintf(pf, "START %d\n", i) // logged before the scenario touches the code under test
+				pmu.Unlock()
+			})
 			b, _ := json.Marshal(rec)
 			pmu.Lock()
 			w.Write(b)
